@@ -2,9 +2,10 @@ from .runner import Property
 from .common import COMMON_TRUST
 from .fam_tree import TreeFam
 from .fam_kauri import KauriFam
+from .fam_ktree import KTreeFam
 
 PROP = Property(
-    "C17", ["HsVerif.Props.C17"], [TreeFam(), KauriFam("roles")],
+    "C17", ["HsVerif.Props.C17"], [TreeFam(), KauriFam("roles"), KTreeFam("c17")],
     facts=[
         {"func": "internal/tree/tree.go:NewSimple", "order": ["panic", "Index", "panic", "treeHeight"]},
         {"func": "internal/tree/tree.go:Tree.replicaPosition", "contains": ["Index"]},
@@ -32,7 +33,7 @@ PROP = Property(
 )
 
 META = {
-    "text": "Proof: for the model of internal/tree (NewSimple, treeHeight loop, Parent, Root, IsRoot, ChildrenOf with its early exits and clamp, PeersOf, the SubTree work-list loop, the heightOf level scan; every replica holding its own instance) Lean theorems show for EVERY duplicate-free position assignment of any length, every branch factor >= 2 and every vantage point: all replicas name one root, which alone reports 'no parent' (one_root); c is in ChildrenOf(p), whoever evaluates it, iff c's own Parent() is p (parent_child_iff, parent_mem); children lists are duplicate-free, of length <= bf, pairwise disjoint, and together list every non-root replica exactly once (children_disjoint, every_node_reached_once); SubTree() is duplicate-free and is exactly the set of replicas whose Parent() chain passes through the replica (subtree_eq_descendants), no replica is its own ancestor (acyclic); PeersOf() is the children list of the parent and consists exactly of the replicas reporting the same parent (peers_eq_children_of_parent); ReplicaHeight + depth = TreeHeight for every replica, children are one lower, TreeHeight = 1 + largest depth (height_consistent, depth_exists, depth_unique, treeHeight_levels); a proposal forwarded along ReplicaChildren from Root() reaches every replica exactly once and a contribution sent along Parent() reaches the root in depth-many hops (proposal_reaches_all_once, vote_path_up); Shuffle, for any random stream, and DefaultTreePos yield valid assignments (shuffle_valid, defaultTreePos_valid). The loop fuel of the model is shown sufficient inside these theorems; treeHeight is additionally regenerated from tree.go on every run and bridged (gen_treeHeight). Correspondence: real tree.NewSimple instances (one per replica, unexported treeHeight/heightOf via overlay export), leaderrotation.TreeBased.GetLeader, tree.Shuffle and DefaultTreePos are run against the model and against an oracle that knows only the axioms of a rooted tree: all n in 1..40 x bf 2..6 with the identity assignment from every vantage point, all permutations for n <= 6 (quick) / n <= 7 and n = 8 with bf 2 (thorough), seeded random permutations and sparse ids for every n <= 40 and some n up to 342 with bf up to 40, malformed configurations, treeHeight exhaustively for n <= 3000 (40000) x bf 1..12. The consequence clause is also run at the level of the Kauri code: the real comm.Kauri in EVERY position of every tree with n <= 13 (thorough: 21) and branch factor 2, 3, 4, 6 — also trees whose last level is incomplete — must forward the proposal to exactly its children (or, childless, hand its vote to its parent at once), merge their contributions and send one aggregate; compared with the node model (C09) line by line.",
+    "text": "Proof: for the model of internal/tree (NewSimple, treeHeight loop, Parent, Root, IsRoot, ChildrenOf with its early exits and clamp, PeersOf, the SubTree work-list loop, the heightOf level scan; every replica holding its own instance) Lean theorems show for EVERY duplicate-free position assignment of any length, every branch factor >= 2 and every vantage point: all replicas name one root, which alone reports 'no parent' (one_root); c is in ChildrenOf(p), whoever evaluates it, iff c's own Parent() is p (parent_child_iff, parent_mem); children lists are duplicate-free, of length <= bf, pairwise disjoint, and together list every non-root replica exactly once (children_disjoint, every_node_reached_once); SubTree() is duplicate-free and is exactly the set of replicas whose Parent() chain passes through the replica (subtree_eq_descendants), no replica is its own ancestor (acyclic); PeersOf() is the children list of the parent and consists exactly of the replicas reporting the same parent (peers_eq_children_of_parent); ReplicaHeight + depth = TreeHeight for every replica, children are one lower, TreeHeight = 1 + largest depth (height_consistent, depth_exists, depth_unique, treeHeight_levels); a proposal forwarded along ReplicaChildren from Root() reaches every replica exactly once and a contribution sent along Parent() reaches the root in depth-many hops (proposal_reaches_all_once, vote_path_up); Shuffle, for any random stream, and DefaultTreePos yield valid assignments (shuffle_valid, defaultTreePos_valid). The loop fuel of the model is shown sufficient inside these theorems; treeHeight is additionally regenerated from tree.go on every run and bridged (gen_treeHeight). Correspondence: real tree.NewSimple instances (one per replica, unexported treeHeight/heightOf via overlay export), leaderrotation.TreeBased.GetLeader, tree.Shuffle and DefaultTreePos are run against the model and against an oracle that knows only the axioms of a rooted tree: all n in 1..40 x bf 2..6 with the identity assignment from every vantage point, all permutations for n <= 6 (quick) / n <= 7 and n = 8 with bf 2 (thorough), seeded random permutations and sparse ids for every n <= 40 and some n up to 342 with bf up to 40, malformed configurations, treeHeight exhaustively for n <= 3000 (40000) x bf 1..12. The consequence clause is also run at the level of the Kauri code: the real comm.Kauri in EVERY position of every tree with n <= 13 (thorough: 21) and branch factor 2, 3, 4, 6 — also trees whose last level is incomplete — must forward the proposal to exactly its children (or, childless, hand its vote to its parent at once), merge their contributions and send one aggregate; compared with the node model (C09) line by line; and whole trees of real Kauri nodes (ktree family, n <= 10 / 13, every replica a real node): the aggregates really handed upwards along Parent() must add up, at the root, to a certificate over exactly the replicas connected to it.",
     "note": "Trusted: Lean kernel, propext/Quot.sound/Classical.choice, gofacts, correspondence harness, math/rand/v2 Shuffle being a swap sequence. The message layer of kauri.go (gorums Sub/Propose/SendContribution, timers, signature aggregation) is not modelled; the disseminate/voteup ops reproduce its walk over the tree with the same accessor calls, and gofacts checks that those call sites still use ReplicaChildren / SubTree / Parent / Root. Repeated ids in the assignment are outside the property.",
     "technique": "Lean 4 theorems (heap-layout arithmetic, work-list loop invariant, level induction) + translation of treeHeight + differential correspondence with rooted-tree oracle",
 }
